@@ -92,7 +92,7 @@ CLAIMED = {
               "Perimeter coverage, independence of the total gap area from the assemblies' meshes and the area-proportional "
               "flow split are checked numerically on the real arrays; every shared edge cell has the same width for both "
               "assemblies and the width / count of the finer mesh as decided from the input (more edge cells; equal counts: "
-              "the smaller pin pitch)."),
+              "the smaller pin pitch).  Flow split: for any list of cell areas with non-zero sum the split M a / S sums to the gap flow M, two cells carry flows in the ratio of their areas, positive areas give positive flows (c09_flow_split_sum / _proportional / _pos); the real _sc_mfr arrays are compared with that expression on every layout.  History clause: a core built again in the same process after the read-only views of the first one were used has the same tables."),
         note=COMMON_NOTE + ("T2 table dump per layout (encoder round-trip tested), certificates split over 16 generated "
                             "modules so that the kernel evaluations run in parallel.  Areas, wetted lengths and centroid "
                             "distances are not modelled in Lean."),
@@ -167,7 +167,9 @@ CLAIMED = {
               "changes region and same-ring / different-pitch neighbours are included; every sixth core each has six-node "
               "regions with their own convection factor, the low-flow convection approximation (with and without duct heating), "
               "double-ducted types (with the approximation or a stagnant bypass) - the last three are known findings "
-              "(known_findings.json), two six-node defects and one double-duct defect found there are repaired."),
+              "(known_findings.json), two six-node defects and one double-duct defect found there are repaired.  c02_sweep_telescopes: if "
+              "every step closes (plane values of the enthalpy flow differ by the power of the step) the sweep closes, for any number of "
+              "steps."),
         note=COMMON_NOTE + ("T1b symbolic execution of Core._flow_model/_update_energy_balance/_make_conv_mask on real cores; "
                             "hand list-level interface theorem tied to the code through C10's correspondence.  Larger cores, "
                             "region changes and six-node regions are covered by the oracle only."),
